@@ -134,6 +134,7 @@ type replayCase struct {
 	Spec    msggen.Spec `json:"spec"`
 	Option  string      `json:"option"`
 	Session *sessionID  `json:"session,omitempty"` // set for cases of the session family
+	History *historyID  `json:"history,omitempty"` // set for cases of the history family
 }
 
 // ---- scenario classes -------------------------------------------------------------------------------------
@@ -229,10 +230,21 @@ func normHeader(name, value string) string {
 func wantHeaders(m *msggen.Msg) []string {
 	out := make([]string, 0, len(m.Headers))
 	for _, kv := range m.Headers {
+		if staleContentLength(m, kv.Name) {
+			continue
+		}
 		out = append(out, normHeader(kv.Name, kv.Value))
 	}
 	sort.Strings(out)
 	return out
+}
+
+// staleContentLength: the modifier of an "unknown-length" message declared the length unknown (ContentLength
+// -1), so the Content-Length line of the wire is no longer a header of the message (net/http sends the body
+// chunked). Whether the HAR list may still show it is judged by the history family (round 6), which compares
+// with what the peer receives; the single-message families do not judge that one line in that one state.
+func staleContentLength(m *msggen.Msg, name string) bool {
+	return m.Spec.Adjust == "unknown-length" && name == "Content-Length"
 }
 
 func nameOf(line string) string { return strings.SplitN(line, ":", 2)[0] }
@@ -335,6 +347,15 @@ type finding struct{ sig, desc string }
 
 func checkCommonHeaders(kind string, m *msggen.Msg, got []har.Header) []finding {
 	want := wantHeaders(m)
+	if m.Spec.Adjust == "unknown-length" {
+		kept := make([]har.Header, 0, len(got))
+		for _, h := range got {
+			if !staleContentLength(m, h.Name) {
+				kept = append(kept, h)
+			}
+		}
+		got = kept
+	}
 	missing, extra := multisetDiff(want, headerStrings(got))
 	if len(missing) == 0 && len(extra) == 0 {
 		return nil
@@ -719,7 +740,7 @@ func main() {
 	nHeader := len(specs) - nBody
 	specs = append(specs, msggen.EdgeSpace(tier)...)
 
-	parts := map[string]bool{"single": true, "session": true}
+	parts := map[string]bool{"single": true, "session": true, "history": true}
 	if p := os.Getenv("VERIF_C16_PARTS"); p != "" { // development aid: run only some families
 		parts = map[string]bool{}
 		for _, x := range strings.Split(p, ",") {
@@ -757,7 +778,7 @@ func main() {
 	}
 	pending := make([][]pendingViolation, len(specs)) // reported in enumeration order (simplest message first)
 
-	if only != nil && only.Session != nil || !parts["single"] {
+	if only != nil && (only.Session != nil || only.History != nil) || !parts["single"] {
 		specs = nil
 	}
 	lib.Parallel(len(specs), func(i int) {
@@ -884,7 +905,7 @@ func main() {
 		}
 	}
 
-	if parts["session"] && (only == nil || only.Session != nil) {
+	if parts["session"] && (only == nil || only.Session != nil && only.History == nil) {
 		sc := runSessionFamily(rep, tier, only)
 		for k, v := range sc {
 			rep.Coverage[k] = v
@@ -894,6 +915,17 @@ func main() {
 		nontrivial += sc["session_cases_with_reused_capacity"]
 		fieldChecks += sc["session_entries_compared_with_model"]
 		jsonBytes += sc["session_json_bytes"]
+	}
+
+	if parts["history"] && (only == nil || only.History != nil) {
+		hc := runHistoryFamily(rep, tier, only)
+		for k, v := range hc {
+			rep.Coverage[k] = v
+		}
+		cases += hc["history_cases"]
+		transitions += hc["history_transitions"]
+		nontrivial += hc["history_cases_map_and_fields_disagree"]
+		fieldChecks += hc["history_cases_judged"]
 	}
 
 	rep.Coverage["states"] = cases
@@ -913,8 +945,8 @@ func main() {
 	rep.Coverage["violating_cases"] = violCases
 	rep.Coverage["distinct_outcomes"] = distinctOutcomes
 	rep.Coverage["exhaustive"] = only == nil
-	rep.Coverage["rule"] = "cases = every message of msggen.BodySpace ∪ HeaderSpace ∪ EdgeSpace x capture option {all, none, opt-in, opt-out} (every message) and x 10 further option settings (post-data and body options set independently, option histories where the last setting wins, empty / one-element / upper-case prefix lists) on the messages of 6 body-size classes; states = distinct (message, option) pairs; a case is non-trivial when the body is non-empty, the option captures it, and the model has to do more than copy bytes: the message is chunked, content-coded, not valid UTF-8, or a form/multipart body that is parsed into parameters. Session family: every sequence of K full exchanges (request + its own response) over a pool of 8 exchanges x response arrival order {sequential, after all requests in reverse order, after all requests in request order} x options {all, opt-in}, plus the length-1 baseline, logged through one logger; all entries are compared with the model of their own exchange only after the last exchange was logged, then the export handler's JSON and the reset handler's JSON (?return=true) are parsed back and compared entry by entry and the log must be empty; a session is non-trivial when a later captured response body fits into the memory of an earlier one"
-	rep.Coverage["bounds"] = fmt.Sprintf("tier %s: body space = {request POST, response 200} x sizes %v (quick: the classes above 4097 with 3 of the 5 chunk lists) x {Content-Length, close (responses), chunked x chunk lists x trailers 0..2} x content codings %v x content types requests %v / responses %v (form sets: 1 pair, 4 pairs with a repeated name / reserved characters / empty value, non-UTF-8 and non-ASCII pairs; multipart sets: 1 field, field + text file, binary file + field; a pad parameter brings the body to the requested size); header space = requests {GET,POST,PUT} x HTTP/1.1,1.0 x query pool %q x Cookie pool %q x repeated/empty header pool, responses {200,201,301,302,404,204,304} x versions x Set-Cookie pool %q x header pool x Location pool %q; opt-in list %v, opt-out list %v; edge space = request methods {GET,DELETE,PATCH,OPTIONS,PUT} with a body, content types {absent, unparseable media type, form with parameters / in upper case / with a non-UTF-8 parameter name / that does not parse, multipart with quoted boundary / without boundary / with an empty and a typed part} x framings x {identity, gzip, zlib deflate, unknown coding}, non-UTF-8 bytes in a query value and in a header value, 206 x codings x framings, 304 and answers to HEAD {200,404,301} with Content-Length / chunked framing headers and no body, Location on {200,201,404}, query strings with '=' inside values and names / empty names / flags, requests whose parsed form has Transfer-Encoding chunked AND a content length, or a body of unknown length (neither); session length K = 3 (quick) / 4 (thorough)",
+	rep.Coverage["rule"] = "cases = every message of msggen.BodySpace ∪ HeaderSpace ∪ EdgeSpace x capture option {all, none, opt-in, opt-out} (every message) and x 10 further option settings (post-data and body options set independently, option histories where the last setting wins, empty / one-element / upper-case prefix lists) on the messages of 6 body-size classes; states = distinct (message, option) pairs; a case is non-trivial when the body is non-empty, the option captures it, and the model has to do more than copy bytes: the message is chunked, content-coded, not valid UTF-8, or a form/multipart body that is parsed into parameters. Session family: every sequence of K full exchanges (request + its own response) over a pool of 8 exchanges x response arrival order {sequential, after all requests in reverse order, after all requests in request order} x options {all, opt-in}, plus the length-1 baseline, logged through one logger; all entries are compared with the model of their own exchange only after the last exchange was logged, then the export handler's JSON and the reset handler's JSON (?return=true) are parsed back and compared entry by entry and the log must be empty; a session is non-trivial when a later captured response body fits into the memory of an earlier one. History family: every base message of a pool of 19 requests and 16 responses (framing x size x coding/type) x every sequence of up to L modifications that ran before the logger (body replaced with the length field updated / declared unknown, framing changed to chunked / to Content-Length, Host field rewritten, Content-Length / Transfer-Encoding / Host written into or deleted from the header map, martian's own body.Modifier) x options {all, none}; after the history the message is logged, then serialised with req.Write / res.Write and taken apart by msggen's parser: Host, Content-Length, Transfer-Encoding and the Trailer announcement of the HAR header list must be what the peer receives, everything else is compared with the reference model of the history; a history case is non-trivial when header map and fields disagree about one of the three names at logging time"
+	rep.Coverage["bounds"] = fmt.Sprintf("tier %s: body space = {request POST, response 200} x sizes %v (quick: the classes above 4097 with 3 of the 5 chunk lists) x {Content-Length, close (responses), chunked x chunk lists x trailers 0..2} x content codings %v x content types requests %v / responses %v (form sets: 1 pair, 4 pairs with a repeated name / reserved characters / empty value, non-UTF-8 and non-ASCII pairs; multipart sets: 1 field, field + text file, binary file + field; a pad parameter brings the body to the requested size); header space = requests {GET,POST,PUT} x HTTP/1.1,1.0 x query pool %q x Cookie pool %q x repeated/empty header pool, responses {200,201,301,302,404,204,304} x versions x Set-Cookie pool %q x header pool x Location pool %q; opt-in list %v, opt-out list %v; edge space = request methods {GET,DELETE,PATCH,OPTIONS,PUT} with a body, content types {absent, unparseable media type, form with parameters / in upper case / with a non-UTF-8 parameter name / that does not parse, multipart with quoted boundary / without boundary / with an empty and a typed part} x framings x {identity, gzip, zlib deflate, unknown coding}, non-UTF-8 bytes in a query value and in a header value, 206 x codings x framings, 304 and answers to HEAD {200,404,301} with Content-Length / chunked framing headers and no body, Location on {200,201,404}, query strings with '=' inside values and names / empty names / flags, requests whose parsed form has Transfer-Encoding chunked AND a content length, or a body of unknown length (neither); session length K = 3 (quick) / 4 (thorough); history length L <= 2 (quick) / 3 (thorough) over an alphabet of 12 (requests) / 10 (responses) modifications, HTTP/1.1 messages of methods/statuses that allow a body",
 		tier, sizesFor(tier), msggen.Encodings, msggen.RequestCTs, msggen.ResponseCTs, msggen.QueryRaw, msggen.ReqCookieHeaders, msggen.ResCookieHeaders, msggen.Locations, optIn, optOut)
 	rep.Assumptions = []string{
 		"the reference values are the generator's own lists (header lines, query pairs, cookies, form pairs, multipart parts, payload before/after content coding); martian and net/http parsing results are never used as expectations",
@@ -929,6 +961,8 @@ func main() {
 		"a response to HEAD and a 304 have no body whatever their framing headers say: the content must be empty; a Location header on a response outside 3xx is not a redirect URL",
 		"a form body that does not parse (invalid escape) and a multipart body without a boundary parameter have no parameter list: the post data text must be the body",
 		"requests are in absolute-form as a proxy receives them",
+		"history family: the message of a modified exchange is the one the peer receives (req.Write / res.Write, what martian does after the modifiers ran); a header list may also show the length field of a message that is chunked AND has a length, may show or omit a zero Content-Length (net/http decides by method, status and body reader whether a zero length is announced), and need not show the chunked coding net/http picks at send time for a body of unknown length; a value that is neither sent nor the value of the field is never accepted",
+		"history family: messages net/http refuses to serialise are counted (history_cases_unsendable) and not judged",
 	}
 	rep.Finish()
 }
